@@ -165,17 +165,19 @@ def build_harness(cmd, timeout=900):
     """Build go/harness/cmd/<cmd> against $VERIF_REPO's working tree with -tags verif."""
     os.makedirs(os.path.join(BUILD, "bin"), exist_ok=True)
     src = os.path.join(VERIF, "go", "harness")
+    # runs against a scratch worktree (VERIF_REPO) keep their own module file and binaries
+    sfx = "" if os.path.realpath(REPO) == "/repo" else "_" + hashlib.md5(os.path.realpath(REPO).encode()).hexdigest()[:8]
     with Lock("go"):
-        modfile = os.path.join(BUILD, "harness.mod")
+        modfile = os.path.join(BUILD, "harness%s.mod" % sfx)
         mod = open(os.path.join(src, "go.mod")).read()
         mod = re.sub(r"replace ergo\.services/ergo => .*", "replace ergo.services/ergo => " + REPO, mod)
         if not os.path.exists(modfile) or open(modfile).read() != mod:
             with open(modfile, "w") as f:
                 f.write(mod)
         sumsrc = os.path.join(REPO, "go.sum")
-        with open(os.path.join(BUILD, "harness.sum"), "w") as f:
+        with open(os.path.join(BUILD, "harness%s.sum" % sfx), "w") as f:
             f.write(open(sumsrc).read() if os.path.exists(sumsrc) else "")
-        binp = os.path.join(BUILD, "bin", cmd)
+        binp = os.path.join(BUILD, "bin", cmd + sfx)
         rc, out = sh(["go", "build", "-tags", "verif", "-modfile", modfile, "-o", binp, "./cmd/" + cmd],
                      cwd=src, timeout=timeout, env=GOENV)
     return rc == 0, out, binp
